@@ -235,14 +235,26 @@ def gen_adversarial(seed, rng):
         if c < 0.05:
             e = ir.call('fnRec', ir.num(0), ir.num(rng.choice([30, 150, 400, 3000, 1000000000])))
             kinds.append('deep-recursion')
-        elif c < 0.08:
+        elif c < 0.12:
+            # a library function that parses one of its string arguments: syntactically invalid expression text
+            rows = ir.call('arrayNew', ir.call('objectNew', ir.s('a'), ir.num(1)), ir.call('objectNew', ir.s('a'), ir.num(2)))
+            bad = ir.s(rng.choice(['a >', '2 * (a', '(', 'fnA(', 'a +', ')', 'a b', "'unterminated", 'a ** ** 2', '']))
+            variables = [ir.call('objectNew', ir.s('v'), ir.num(1))] if rng.random() < 0.4 else []
+            e = rng.choice([
+                lambda: ir.call('dataFilter', rows, bad, *variables),
+                lambda: ir.call('dataCalculatedField', rows, ir.s('f'), bad, *variables),
+                lambda: ir.call('dataJoin', rows, rows, bad),
+                lambda: ir.call('dataJoin', rows, rows, ir.s('a'), bad, ir.var('true'), *variables),
+            ])()
+            kinds.append('data-bad-expression')
+        elif c < 0.15:
             # hand-built model: a call expression without the optional 'args' member
             e = {'function': {'name': rng.choice(['fnA', 'fnRec', 'arrayNew', 'stringLength', 'hostTick', 'mathMax'])}}
             kinds.append('call-without-args')
-        elif c < 0.18:
+        elif c < 0.25:
             e = classic(rng)
             kinds.append('classic')
-        elif c < 0.40:
+        elif c < 0.45:
             for _ in range(20):
                 e = operand(rng, 0)
                 if 'binary' not in e:
